@@ -1,33 +1,45 @@
 import CJ.Model.RW
 /-! GENERATED on every run of `./check C13` by go/harness/C13/zz_verif_c13_gen_test.go from
-pkg/regserver/regprocessor/*.go (go/ast) — do not edit.  One entry per path through the method:
-(branches taken, operations on `selectorMutex` / `ipSelector` in execution order, `defer` expanded at exit). -/
+pkg/regserver/regprocessor/*.go (go/ast) — do not edit.  One entry per path through every exported
+entry point of the package that (with its callees inlined) operates on the lock: families whose
+selection block is entered, early exit or straight through, operations in execution order (`defer`
+expanded at exit).  `coverage`: per name (occurrences in the sources, reached from the entry points,
+accesses to an object under construction). -/
 namespace CJ.Gen
 open CJ.RW
 
-/-- paths through `RegProcessor.processBdReq` -/
-def bdReqPaths : List (String × List Op) := [
-  ("base", [.rlock, .readSel, .runlock]),
-  ("return", []),
-  ("return#2", [.rlock, .readSel, .runlock]),
-  ("v4", [.rlock, .readSel, .runlock, .select]),
-  ("v4+err", [.rlock, .readSel, .runlock, .select]),
-  ("v4+return", [.rlock, .readSel, .runlock, .select]),
-  ("v4+v6", [.rlock, .readSel, .runlock, .select, .select]),
-  ("v4+v6+err", [.rlock, .readSel, .runlock, .select, .select]),
-  ("v4+v6+return", [.rlock, .readSel, .runlock, .select, .select]),
-  ("v6", [.rlock, .readSel, .runlock, .select]),
-  ("v6+err", [.rlock, .readSel, .runlock, .select]),
-  ("v6+return", [.rlock, .readSel, .runlock, .select])
+/-- paths that operate on `RegProcessor.selectorMutex` / `ipSelector` / call `Select` -/
+def selectorPaths : List Path := [
+  { root := "RegProcessor.RegisterBidirectional", name := "return", fams := [], early := true, ops := [] },
+  { root := "RegProcessor.RegisterBidirectional", name := "v4+errnil+return", fams := [4], early := true, ops := [.rlock, .readSel, .runlock, .select] },
+  { root := "RegProcessor.RegisterBidirectional", name := "v4+v6+errnil+return", fams := [4, 6], early := true, ops := [.rlock, .readSel, .runlock, .select, .select] },
+  { root := "RegProcessor.RegisterBidirectional", name := "v6+errnil+return", fams := [6], early := true, ops := [.rlock, .readSel, .runlock, .select] },
+  { root := "RegProcessor.RegisterBidirectional", name := "return", fams := [], early := true, ops := [.rlock, .readSel, .runlock] },
+  { root := "RegProcessor.RegisterBidirectional", name := "v4+v6", fams := [4, 6], early := false, ops := [.rlock, .readSel, .runlock, .select, .select] },
+  { root := "RegProcessor.RegisterBidirectional", name := "v6", fams := [6], early := false, ops := [.rlock, .readSel, .runlock, .select] },
+  { root := "RegProcessor.RegisterBidirectional", name := "v4", fams := [4], early := false, ops := [.rlock, .readSel, .runlock, .select] },
+  { root := "RegProcessor.RegisterBidirectional", name := "base", fams := [], early := false, ops := [.rlock, .readSel, .runlock] },
+  { root := "RegProcessor.ReloadSubnets", name := "return", fams := [], early := true, ops := [] },
+  { root := "RegProcessor.ReloadSubnets", name := "base", fams := [], early := false, ops := [.lock, .swapSel, .unlock] }
 ]
 
-/-- paths through `RegProcessor.ReloadSubnets` -/
-def reloadPaths : List (String × List Op) := [
-  ("base", [.lock, .swapSel, .unlock]),
-  ("return", [])
+/-- paths that operate on `RegProcessor.zmqMutex` -/
+def zmqPaths : List Path := [
+  { root := "RegProcessor.RegisterBidirectional", name := "return", fams := [], early := true, ops := [] },
+  { root := "RegProcessor.RegisterBidirectional", name := "return", fams := [], early := true, ops := [.lock, .unlock] },
+  { root := "RegProcessor.RegisterBidirectional", name := "base", fams := [], early := false, ops := [.lock, .unlock] },
+  { root := "RegProcessor.RegisterUnidirectional", name := "return", fams := [], early := true, ops := [] },
+  { root := "RegProcessor.RegisterUnidirectional", name := "return", fams := [], early := true, ops := [.lock, .unlock] },
+  { root := "RegProcessor.RegisterUnidirectional", name := "base", fams := [], early := false, ops := [.lock, .unlock] }
 ]
 
-def bdReqPrograms : List (List Op) := bdReqPaths.map (·.2)
-def reloadPrograms : List (List Op) := reloadPaths.map (·.2)
+def selectorPrograms : List (List Op) := selectorPaths.map (·.ops)
+def zmqPrograms : List (List Op) := zmqPaths.map (·.ops)
+
+def coverage : List (String × Nat × Nat × Nat) := [
+  ("selectorMutex", 4, 4, 0),
+  ("ipSelector", 3, 2, 1),
+  ("zmqMutex", 2, 2, 0)
+]
 
 end CJ.Gen
